@@ -75,8 +75,20 @@ H.__module__ = "vgen"
 Plain.__module__ = "vgen"
 
 
-def marker(tag):
+# a handler for a container type may hand the members back to dump() with the arguments it received (the natural way to
+# write one); while the expectation is computed the same handler recurses into the reference traversal instead
+MODE = {"reference": False}
+
+
+def marker(tag, recursive=False):
     def handler(obj, serialize_method, ignore_attribute, ignore, config):
+        if recursive and type(obj) in (tuple, set):
+            if MODE["reference"]:
+                items = [reference(x, config, MODE["ignore"]) for x in obj]
+            else:
+                from jsonrpclib import jsonclass as JC
+                items = [JC.dump(x, serialize_method, ignore_attribute, ignore, config) for x in obj]
+            return {"MARK": tag, "members": items, "verbatim": ("t", "s", True)}
         if isinstance(obj, H) and obj.n % 4 == 0:
             # what a handler returns is emitted verbatim - falsy values included
             return [None, "", 0, [], {}, False][(obj.n // 4) % 6]
@@ -155,7 +167,8 @@ def cases(draw):
     all_fields = sorted(set(f for i in range(len(classes)) for f in G.real_field_names(classes, i)))
     call_ignore = draw(st.lists(st.sampled_from(all_fields + ["n", "zz"]), max_size=2, unique=True)) if all_fields and draw(st.booleans()) else []
     return {"classes": classes, "names": names, "handlers": handlers, "none_handler": draw(st.integers(0, 5)) == 0,
-            "value": value, "call_ignore": call_ignore, "pass_names": draw(st.booleans())}
+            "value": value, "call_ignore": call_ignore, "pass_names": draw(st.booleans()),
+            "recursive_handlers": draw(st.booleans())}
 
 
 class C20Builder(G.Builder):
@@ -214,7 +227,12 @@ def reference(v, cfg, ignore):
     """Expected dump output, written from the statement"""
     h = cfg.serialize_handlers.get(type(v))
     if h is not None:
-        return h(v, None, None, None, cfg)
+        before = MODE["reference"]
+        MODE["reference"], MODE["ignore"] = True, ignore
+        try:
+            return h(v, None, None, None, cfg)
+        finally:
+            MODE["reference"] = before
     if v is None or isinstance(v, (bool, int, float, str)):
         return v
     if isinstance(v, (list, tuple, set, frozenset)):
@@ -303,7 +321,7 @@ def oracle(case):
     from jsonrpclib import jsonclass as JC
     from jsonrpclib.config import Config
 
-    handlers = {HANDLER_TYPES[h]: marker(h) for h in case["handlers"]}
+    handlers = {HANDLER_TYPES[h]: marker(h, case.get("recursive_handlers", False)) for h in case["handlers"]}
     if case["none_handler"]:
         handlers.setdefault(frozenset, None)
     cfg = Config(serialize_method=case["names"][0], ignore_attribute=case["names"][1], serialize_handlers=handlers)
